@@ -514,8 +514,31 @@ def do_cube_B(spec, sc, st, jobno):
     st.cubes += 1
 
 
+def medium_specs():
+    """Medium-size cubes (11-48 rows, extents 4-8) with the same factor design: reaches code that only engages above a
+    size threshold (bins() vs bincount switches, chunking, caches), which the exhaustive tiny scope cannot. Deterministic."""
+    x = [20261004]
+
+    def nxt(m):
+        x[0] = (x[0] * 48271) % 2147483647
+        return x[0] % m
+
+    for lay in (((11, 4),), ((24, 5), (24, 4)), ((48, 8),), ((30, 3), (30, 4), (30, 2)), ((17, 6), (17, 2))):
+        for variant in range(2):
+            dense, commons, shape = [], [], []
+            for (n, k) in lay:
+                cells = [(0 if (variant and nxt(10) < 6) else nxt(k)) for _ in range(n)]
+                dense.append(np.array(cells, dtype=np.int64))
+                c = (0, k)[variant]  # a frequent common / a common that never occurs (extent k + 1)
+                commons.append(c)
+                shape.append(k + 1)
+            yield ("M", dense, commons, tuple(shape), None)
+
+
 def jobs(sc):
     for spec in cube_specs(sc):
+        yield do_cube_A, spec
+    for spec in medium_specs():
         yield do_cube_A, spec
     for spec in family_B(sc):
         yield do_cube_B, spec
